@@ -27,7 +27,8 @@ const char *mc_id = "C18";
 const char *mc_rule = "input enumeration: all value sequences over {below,at-min,in1,in2,at-max,above} (L<=7 quick, <=9 thorough) and the same plus {just-below,just-above} "
                       "(L<=6 / <=7) for ranges [0,1] and [-1,1], reduced alphabets for degenerate [1,1], NULL and inverted [1,0]; run shapes prefix.fill^k.suffix, k=65531..65537; "
                       "each input through 7 drivers (C loop, windowed C loop with every window size, join pass, array fresh/refine/2-dim, polyline) against one partition oracle; "
-                      "all pairs of well-formed parts for join; all 65536 fraction codes. "
+                      "all pairs (x,y) of sequences of length <=4 (thorough: 5 with four letters for y) merged over two limited dimensions by array::apply and polyline, drawn point = in range in both; "
+                      "array histories set(n)/apply/set(-1)/apply on every input; all pairs of well-formed parts for join; all 65536 fraction codes. "
                       "nontrivial = distinct (range,sequence) inputs whose partition has a cut/trim fraction or a hidden value + distinct part pairs that merged + distinct codes round-tripped";
 
 // ------------------------------------------------------------------ ranges and alphabets
